@@ -230,7 +230,12 @@ pub fn worker_main(args: &[String]) -> i32 {
     }
     match fmtx::fmt(&text, Cfg::new(width, tab, false)) {
         FmtOut::Ok(y) => {
-            println!("OK {}", y.len());
+            // report the worker's own CPU time: the parent decides on CPU time, never on wall-clock time
+            let mut ts = libc::timespec { tv_sec: 0, tv_nsec: 0 };
+            unsafe {
+                libc::clock_gettime(libc::CLOCK_PROCESS_CPUTIME_ID, &mut ts);
+            }
+            println!("OK {} cpu_ms={}", y.len(), ts.tv_sec as u64 * 1000 + ts.tv_nsec as u64 / 1_000_000);
             0
         }
         FmtOut::Refused => {
@@ -264,7 +269,11 @@ pub fn run_worker(mode: &str, family: usize, depth: usize, width: usize, tab: us
         return WorkerOutcome::Signal(sig, util::clip(stderr.trim(), 200));
     }
     if let Some(rest) = stdout.strip_prefix("OK ") {
-        return WorkerOutcome::Ok { cpu_ms: wall, out_len: rest.trim().parse().unwrap_or(0) };
+        let mut it = rest.split_whitespace();
+        let out_len = it.next().and_then(|x| x.parse().ok()).unwrap_or(0);
+        let cpu_ms = it.next().and_then(|x| x.strip_prefix("cpu_ms=")).and_then(|x| x.parse().ok()).unwrap_or(0);
+        let _ = wall;
+        return WorkerOutcome::Ok { cpu_ms, out_len };
     }
     if stdout.starts_with("PARSED") {
         return WorkerOutcome::Ok { cpu_ms: wall, out_len: 0 };
@@ -305,7 +314,7 @@ pub fn run_ladders(families: &[usize], max_depth: usize, acc: &mut Acc) {
                     match out {
                         WorkerOutcome::Ok { cpu_ms, .. } => {
                             acc.held += 1;
-                            acc.max("max_worker_wall_ms", cpu_ms);
+                            acc.max("max_worker_cpu_ms", cpu_ms);
                             acc.nontrivial.insert(util::hash64_parts(&["ladder", &fam.to_string(), &d.to_string()]));
                             if cpu_ms > 60_000 {
                                 acc.violations.push(Violation {
@@ -314,7 +323,7 @@ pub fn run_ladders(families: &[usize], max_depth: usize, acc: &mut Acc) {
                                     cfg: Some(Cfg::new(w, t, false)),
                                     origin: format!("G-NEST family {} depth {}", fam, d),
                                     oracle: "depth-ladder".into(),
-                                    detail: format!("worker needed {} ms at depth {}", cpu_ms, d),
+                                    detail: format!("worker needed {} ms CPU at depth {} (budget 60 000 ms)", cpu_ms, d),
                                     extra,
                                 });
                             }
